@@ -1,0 +1,26 @@
+//go:build verif
+
+// Contracts for package selection (compiled only with -tags=verif; checked by /verif/bin/govc). Property C12.
+package selection
+
+//@ func nodeMatchesPlatform(node) (r)
+//@   pure
+//@   requires [node] isNode(node)
+//@   ensures [spec] r <==> platformOK(node)
+
+// C12: "all of their transitive dependencies (followed through aliases) ... a selected target with a platform-incompatible
+// dependency is an error rather than a partial build"
+//@ func (*Selector).selectAllAncestorsForBuild(s, graph, depChain, node) (err)
+//@   requires [abs] absEdges(graph) && edgesAreNodes(graph) && isNode(node)
+//@   requires [chain] len(depChain) >= 1
+//@   modifies heap("H$S$model.Target$IsSelected"), heap("H$S$model.Alias$IsSelected")
+//@   ensures [closure] err == nil ==> (forall a model.BuildNode :: {reach(graph, a, node)} reach(graph, a, node) ==> isSel(a))
+//@   ensures [monotone] forall a model.BuildNode :: isNode(a) && old(isSel(a)) ==> isSel(a)
+//@   ensures [only_ancestors] forall a model.BuildNode :: {reach(graph, a, node)} isNode(a) && isSel(a) && !old(isSel(a)) ==> reach(graph, a, node)
+//@   ensures [compatible_or_error] err == nil ==> (forall a model.BuildNode :: {reach(graph, a, node)} reach(graph, a, node) ==> platformOK(a))
+//@ loop #1
+//@   invariant [deps_are_edges] forall j int :: {ranged()[j]} 0 <= j && j < len(ranged()) ==> edge(graph, ranged()[j], node)
+//@   invariant [done_so_far] forall j int :: 0 <= j && j <= rangeindex ==> isSel(ranged()[j]) && platformOK(ranged()[j]) &&
+//@        (forall a model.BuildNode :: {reach(graph, a, ranged()[j])} reach(graph, a, ranged()[j]) ==> isSel(a) && platformOK(a))
+//@   invariant [monotone] forall a model.BuildNode :: isNode(a) && old(isSel(a)) ==> isSel(a)
+//@   invariant [only_ancestors] forall a model.BuildNode :: {reach(graph, a, node)} isNode(a) && isSel(a) && !old(isSel(a)) ==> reach(graph, a, node)
